@@ -741,6 +741,31 @@ impl Srv {
                     Err(e) => err_json(&e),
                 }
             }
+            "poll_settle" => {
+                // under no-wait confirmation an acknowledged batch becomes readable when the background writer gets to it: the poll is
+                // repeated (bounded) until it returns everything up to the current offset
+                let consumer = Self::consumer_of(op);
+                let strategy = Self::strategy_of(op);
+                let part = op.get("partition").and_then(|v| v.as_u64()).map(|v| v as u32);
+                let mut last = json!({"r": "err", "name": "no_poll"});
+                for _ in 0..250 {
+                    match c.poll_messages(&stream, &topic, part, &consumer, &strategy, u(op, "count") as u32, false).await {
+                        Ok(p) => {
+                            let complete = p.messages.last().map(|m| m.offset == p.current_offset).unwrap_or(false);
+                            last = Self::polled_json(&p);
+                            if complete {
+                                break;
+                            }
+                        }
+                        Err(e) => {
+                            last = err_json(&e);
+                            break;
+                        }
+                    }
+                    tokio::time::sleep(std::time::Duration::from_millis(20)).await;
+                }
+                last
+            }
             "poll_store" => {
                 // a poll without auto-commit followed by a manual commit of the last message received, without naming the partition
                 let consumer = Self::consumer_of(op);
@@ -950,7 +975,8 @@ impl Srv {
             }
             "change_password" => unit!(c.change_password(&ident(&op["uid"]), s(op, "current"), s(op, "new")).await),
             "get_user" => match c.get_user(&ident(&op["uid"])).await {
-                Ok(Some(d)) => json!({"r": "ok", "some": true, "id": d.id, "name": d.username, "active": d.status == UserStatus::Active, "perms": d.permissions.is_some()}),
+                Ok(Some(d)) => json!({"r": "ok", "some": true, "id": d.id, "name": d.username, "active": d.status == UserStatus::Active, "perms": d.permissions.is_some(),
+                    "perms_full": serde_json::to_value(&d.permissions).unwrap_or(Value::Null)}),
                 Ok(None) => json!({"r": "ok", "some": false}),
                 Err(e) => err_json(&e),
             },
